@@ -369,9 +369,16 @@ def xyz_part(ctx, resp_only):
     from chmpy.core.element import Element
     mx = load_shimmed("chmpy.fmt.xyz_file", pre={"float": sym_float, "int": sym_int})
     P = _coords(1)
-    nd = 6 if ctx.tier == "thorough" else 4
+    nd = 6
     lim = 10 ** nd
-    ex = Explorer(assumptions=[z3.And(v.t > -lim, v.t < lim) for v in P.flat], max_paths=5000)
+    if ctx.tier == "thorough":
+        boxes = [[z3.And(v.t > -lim, v.t < lim) for v in P.flat]]
+    else:
+        # quick: one coordinate over the whole range, the other two in one digit class (adjacent fields interact only
+        # through the leading padding of the later one); thorough: all classes jointly
+        boxes = [[z3.And(P[0, k].t > -lim, P[0, k].t < lim) if k == a else z3.And(P[0, k].t >= 1, P[0, k].t < 9) for k in range(3)] for a in range(3)]
+        boxes.append([z3.And(v.t > -lim, v.t <= -lim // 10) for v in P.flat])
+    ex = Explorer(max_paths=5000)
     tm = TextModel(ex, max_int_digits=nd + 1)
     symtext.install(tm)
     mol = Molecule([Element[17]], P)
@@ -392,7 +399,10 @@ def xyz_part(ctx, resp_only):
     for resp in (resp_only,):
         respell[0] = resp
         t0 = time.time()
-        paths = ex.run(rt)
+        paths = []
+        for box in boxes:
+            ex.base = box
+            paths += ex.run(rt)
         ctx.add_paths(ex)
         why = None
         n = 0
